@@ -310,6 +310,9 @@ def shrink(nevrun, tmp, case, key_of, key, budget=14):
                 break
             ps = cur.params[:i] + cur.params[i + 1:]
             ar = cur.args[:i] + cur.args[i + 1:]
+            if cur.expect == "ffi_fail" and cur.libmode == "ok" and \
+                    not any(ffigen.contains_nil(t, a) for t, a in zip(ps, ar)):
+                continue        # dropping this parameter would drop the reason for ffi_fail
             cand = ffigen.Case("s%03d" % n, cur.family, ps, cur.ret, ar, cur.retval, cur.expect, cur.libmode,
                                "shrunk from " + case.cid)
             n += 1
